@@ -1,6 +1,6 @@
 (* C14 — Thrift descriptors mirror the IDL and lookups are exact. *)
 From Coq Require Import ZArith List Bool Lia.
-From DG Require Import CaseFormat GoSem Lookup LookupProofs Idl IdlProofs Gen_caching GenCachingProofs.
+From DG Require Import CaseFormat GoSem Lookup LookupProofs Idl IdlProofs IdlParse IdlParseProofs Gen_caching GenCachingProofs.
 Import ListNotations.
 Local Open Scope Z_scope.
 
@@ -258,3 +258,87 @@ Example C14_elab_example :
   | _ => False
   end.
 Proof. vm_compute. repeat split; reflexivity. Qed.
+
+(* ---------------------------------------------------------------- the compiler as coded refines elab *)
+
+(* coq/model/IdlParse.v transcribes thrift/idl.go (parse / getAllFuncs / addFunction / parseRequest / parseResponse / parseType
+   with the compiling caches as explicit state and the descriptors as a pointer graph); check 1409 evaluates it on every
+   generated AST against the real descriptors.  For every IDL AST in the computable domain [pdomain] (well-scoped names, no
+   include alias clash, EnableThriftBase and ApiBodyFastPath off — the two options that make a descriptor depend on where the
+   struct was first compiled): whenever the transcription and the specification are both defined, the graph read back to ANY
+   depth equals elab's tree. *)
+Theorem C14_parse_refines_elab :
+  forall p o, pdomain p o = true ->
+  forall st sn pfs sd e, parse p o = Some (st, sn, pfs) -> elab true true sd p o = Some e -> unroll_service sd (parse p o) = Some e.
+Proof. exact parse_refines_elab. Qed.
+Print Assumptions C14_parse_refines_elab.
+
+(* every struct descriptor of the graph: exactly the kept declared fields, in order, with the columns of the declaration *)
+Theorem C14_parse_nodes_exact :
+  forall p o, pdomain p o = true ->
+  forall st sn pfs, parse p o = Some (st, sn, pfs) ->
+  forall a nd, nth_error (ps_heap st) a = Some nd -> node_ok p o (ps_heap st) nd.
+Proof. exact parse_nodes_exact. Qed.
+Print Assumptions C14_parse_nodes_exact.
+
+(* a cache hit returns the descriptor of the struct-like the key denotes in the tree the cache belongs to (seeded change C14-1) *)
+Theorem C14_parse_cache_sound :
+  forall p o, pdomain p o = true ->
+  forall st sn pfs, parse p o = Some (st, sn, pfs) ->
+  forall cid fi f c n e, nth_error (ps_caches st) cid = Some (fi, c) -> get_file p fi = Some f -> names_ok p f (TNamed n) = true ->
+  cache_find c n = Some e ->
+  exists nd ti tn, nth_error (ps_heap st) (ce_addr e) = Some nd /\ struct_of p fi f n = Some (ti, tn) /\
+                   pn_file nd = ti /\ pn_sname nd = tn /\ pn_target nd = ce_target e /\ pn_tname nd = n.
+Proof. exact parse_cache_sound. Qed.
+Print Assumptions C14_parse_cache_sound.
+
+(* the invariant behind it is preserved by every parseType call (cache entries sound, finished descriptors exact) *)
+Theorem C14_parsetype_preserves_inv :
+  forall p o, pdomain p o = true ->
+  forall fuel st fi f cid rdepth target t st' r,
+  get_file p fi = Some f -> INV p o st -> cache_has st cid fi -> names_ok p f t = true ->
+  ptype fuel p o st fi f cid rdepth target t = Some (st', r) ->
+  INV p o st' /\ ext st st' /\ resolves p o (ps_heap st') target fi f t r.
+Proof. exact ptype_preserves_inv. Qed.
+Print Assumptions C14_parsetype_preserves_inv.
+
+(* annotation-driven columns *)
+Theorem C14_api_none_targets :
+  forall fd, has_anno n_deprecated (f_annos fd) = false ->
+  field_kept 0 fd = true /\ field_kept 2 fd = true /\ field_kept 1 fd = negb (has_anno n_api_none (f_annos fd)).
+Proof. exact api_none_targets. Qed.
+Print Assumptions C14_api_none_targets.
+
+Theorem C14_alias_api_key_first :
+  forall root fast fname annos v rest,
+  flat_map (fun a => if name_eqb (a_key a) n_api_key then [a_vals a] else []) annos = [v] :: rest ->
+  alias_of root fast fname annos = v.
+Proof. exact alias_api_key_first. Qed.
+Print Assumptions C14_alias_api_key_first.
+
+(* non-vacuity: main.thrift { include "a.thrift"; struct Item {1: Item next (api.none), 2: a.Holder h}; service S { Item M(1: Item r) throws (1: a.Err e) } }
+   a.thrift { struct Item {1: string s}; struct Holder {1: Item it (api.key="k", go.tag json "j"), 2: Holder self}; exception Err {1: string m (api.none)} }:
+   same-named struct in two files, recursion through the cache, include-qualified names, api.none per target, alias precedence *)
+Example C14_parse_example :
+  let nI := [73] in let nH := [72] in let nE := [69] in let na := [97] in
+  let a := IFile [47; 97] [] [] [] [] []
+             [SLike 0 nI [IField 1 [115] (TBase 7) 0 CNone []] [];
+              SLike 0 nH [IField 1 [105] (TNamed nI) 0 CNone [Anno n_go_tag [[106]]; Anno n_api_key [[107]]]; IField 2 [120] (TNamed nH) 2 CNone []] [];
+              SLike 2 nE [IField 1 [109] (TBase 7) 0 CNone [Anno n_api_none [[116]]]] []] [] in
+  let main := IFile [47; 109] [] [(na, 1)] [] [] []
+                [SLike 0 nI [IField 1 [110] (TNamed nI) 2 CNone [Anno n_api_none [[116]]]; IField 2 [104] (TNamed (na ++ [46] ++ nH)) 0 CNone []] []]
+                [ISvc [83] [] [IFunc [77] false (TNamed nI) [IField 1 [114] (TNamed nI) 0 CNone []] [IField 1 [101] (TNamed (na ++ [46] ++ nE)) 0 CNone []]]] in
+  let p := [main; a] in
+  let o := POpts 0 false false false 0 0 [] false false false false in
+  pdomain p o = true /\
+  match parse p o with
+  | Some (st, _, _) =>
+    (* request: Item (2 fields), a.Holder (key "a.H" in the fresh cache), a.Item, Holder again (bare key "H": its self reference then hits
+       the cache); response: Item (api.none field dropped), a.Holder, a.Item, Holder; exception Err (api.none kept) *)
+    map (fun nd => (pn_sname nd, pn_target nd, length (pn_fields nd))) (ps_heap st) =
+      [([73], 0, 2%nat); ([72], 0, 2%nat); ([73], 0, 1%nat); ([72], 0, 2%nat); ([73], 1, 1%nat); ([72], 1, 2%nat); ([73], 1, 1%nat); ([72], 1, 2%nat); ([69], 2, 1%nat)] /\
+    match nth_error (ps_heap st) 1 with Some nd => map (fun mf => m_alias (fst mf)) (pn_fields nd) = [[107]; [120]] | None => False end
+  | None => False
+  end /\
+  unroll_service 3 (parse p o) = elab true true 3 p o /\ elab true true 3 p o <> None.
+Proof. vm_compute. repeat split; try reflexivity. discriminate. Qed.
